@@ -82,12 +82,33 @@ fn bdd_part<'a, T: IteTable<'a, BddPtr<'a>> + Default>(
         case.cnf.clauses
     );
     st.flag("cnf.partial_nonempty", m.iter().any(|x| x.is_some()));
+    // the dtree plan on this builder too (its order is unrelated to the elimination order, either cache,
+    // small unique table)
+    if !case.cnf.clauses.is_empty() {
+        let dt = DTree::from_cnf(cnf, &cnf.min_fill_order());
+        let plan = BottomUpPlan::from_dtree(&dt);
+        let pr = b.compile_plan(&plan);
+        ensure!(
+            bdd_tt(pr) == expect,
+            "C05/dtree-plan-bdd-wrong-function",
+            "compile_plan(from_dtree, min-fill) on the BDD builder with order {:?} denotes {:?}, the CNF {:?} denotes {:?}",
+            case.cfg.order(),
+            bdd_tt(pr),
+            case.cnf.clauses,
+            expect
+        );
+        st.flag("plan_and_cnf_routes_gave_different_nodes(C02's concern)", pr != r);
+    }
     Ok(())
 }
 
 pub fn run_cnf_compile(case: &CnfCompileCase, st: &mut Stats) -> CaseResult {
     let cnf = case.cnf.to_rsdd();
     let n = cnf.num_vars();
+    // the input is the clause list the user wrote: the property names clauses with repeated or complementary
+    // literals, empty clauses and the empty formula explicitly, so what Cnf::new makes of them is part of it
+    let seen = CnfCase::read_back(&cnf);
+    st.flag("cnf_object_differs_from_generating_list", seen.tt() != case.cnf.tt() || n != case.cnf.num_vars());
     let expect = case.cnf.tt();
     // BDD builder over exactly the CNF's variables
     let mut cfg = case.cfg.clone();
@@ -101,7 +122,9 @@ pub fn run_cnf_compile(case: &CnfCompileCase, st: &mut Stats) -> CaseResult {
     vt.k = k as u8;
     vt.stride = 1;
     vt.offset = 0;
+    rsdd::verif_hooks::set_unique_table_capacity(case.cfg.table_cap.map(|c| c as usize));
     let mut sb = CompressionSddBuilder::new(vt.to_vtree());
+    rsdd::verif_hooks::set_unique_table_capacity(None);
     // without compression SDDs (and the library's structural node comparison) blow up exponentially:
     // keep that mode to small inputs so that a case never takes minutes (time is not a correctness signal)
     let compress = case.compress || n > 4 || case.cnf.clauses.len() > 6;
@@ -142,6 +165,15 @@ pub fn run_cnf_compile(case: &CnfCompileCase, st: &mut Stats) -> CaseResult {
                 expect
             );
             st.bump("cnf.dtree_vtree");
+            let dpr = db.compile_plan(&BottomUpPlan::from_dtree(&dt));
+            ensure!(
+                sdd_tt(dpr) == expect,
+                "C05/dtree-plan-sdd-wrong-function",
+                "compile_plan(from_dtree) on the SDD builder over the dtree-derived vtree denotes {:?}, the CNF {:?} denotes {:?}",
+                sdd_tt(dpr),
+                case.cnf.clauses,
+                expect
+            );
         }
         let plan = BottomUpPlan::from_dtree(&dt);
         ensure!(
